@@ -269,12 +269,14 @@ PROPS = {
                 "kind or renumbered only on a collision; nothing invented; byte-pair order by merge priority; unigram scores bit-exact; the "
                 "definition initializes when the source is well-formed). CONVTT / CONVTK: the Lean models of the Tiktoken and Tekken "
                 "converters against the implementation's result. BYTETAB: the 256 placeholder characters observed through a ByteLevel source. "
-                "BYTEPIECE: all 256 <0xNN> pieces (upper and lower case) and malformed ones through a SentencePiece source. IMPLEQ detect: "
+                "BYTEPIECE: all 256 <0xNN> pieces (upper and lower case) and malformed ones through a SentencePiece source. CONVHF: the Lean "
+                "model of the Tokenizers converter's vocabulary path (HFA / HFV / HFM lines carry the parsed source) against the "
+                "implementation's vocabulary, scores and specials. IMPLEQ detect: "
                 "auto-detection = explicit converter, with the earlier loaders of the chain that accept the data named; detect-native: a "
                 "native file of the result is read back as itself. Non-trivial: all.",
         "trusted_base": CORE_TB + ["the independent parsers in harness/src/c15.rs (they share base64, serde_json and prost with the converters, none of the converters' types or logic)",
                                    "keepsFast (hash-map evaluation of keepsCheck for 100k-entry vocabularies; cross-checked against the proved keepsCheck on every source with at most 2000 tokens)",
-                                   "NOT modelled: the SentencePiece and Tokenizers converters (normalizer / pre-tokenizer / decoder translation, merge reconstruction); their output is judged per source"],
+                                   "NOT modelled: the SentencePiece converter, and the Tokenizers converter's translation of normalizers / pre-tokenizers / decoders / post-processors (its vocabulary path is modelled: CONVHF compares model and implementation on every source with at most 3000 tokens); their output is judged per source"],
         "assumptions": ["Tekken tokens beyond default_vocab_size and SentencePiece BYTE pieces not of the exact form <0xNN> carry no claim (treated as unused)",
                         "a second SentencePiece UNKNOWN piece, or one that the trainer spec does not name, carries no claim"],
         "explanation": "Lean theorems: the byte-level placeholder table has 256 distinct entries and its inverse undoes it on every byte "
@@ -284,7 +286,11 @@ PROPS = {
                        "explicit result exactly when earlier loaders reject; keepsCheck_sound (the decidable checker implies the property); from raw "
                        "bytes: base64_roundtrip and base64_decode_canonical (only canonical encodings are accepted), parseU32_digits / "
                        "parseU32_overflow_rejected, parseTiktoken_render and tiktoken_text_keeps (the text of any vocabulary converts to exactly "
-                       "its entries, ids and order). "
+                       "its entries, ids and order); for the Tokenizers converter's vocabulary path (all three model kinds, every "
+                       "iteration order of its hash maps): postSteps_keeps / postSteps_no_invention / postSteps_nodup (undoing "
+                       "placeholders and <0xNN>, de-duplication), repairIds_spec / repairIds_fresh / repairIds_above_specials (repair of "
+                       "colliding special ids; the first statement of repairIds_fresh was false of the code: defect F24), "
+                       "hf_unigram_order_independent / hf_bpe_order_independent, hf_unigram_scores_aligned (F22). "
                        "The SentencePiece and Tokenizers converters are decided per source by keepsCheck on the implementation's output.",
     },
     "C16": {
